@@ -21,14 +21,13 @@ Proof.
   vm_compute in H. discriminate.
 Qed.
 
-(* [(1, True), (1, 1)] is accepted as list[tuple[int, bool]] *)
-Lemma literal_dedup_refuted : ~ c03_full_statement.
-Proof.
-  intros H.
-  specialize (H (VNode (TGeneric c_list) [tup2 t_int t_bool])
-                (OList 1 [OTuple 0 [OInt 1; OBool true]; OTuple 0 [OInt 1; OInt 1]])).
-  vm_compute in H. discriminate.
-Qed.
+(* repaired (repo_fixes/C14-known-value-eq-nested-types.diff): [(1, True), (1, 1)] is no longer
+   accepted as list[tuple[int, bool]] — the two element literals are different KnownValues now *)
+Lemma literal_dedup_repaired :
+  let T := VNode (TGeneric c_list) [tup2 t_int t_bool] in
+  let o := OList 1 [OTuple 0 [OInt 1; OBool true]; OTuple 0 [OInt 1; OInt 1]] in
+  ca table T o = false /\ member table T o = false /\ dedup_lits [OTuple 0 [OInt 1; OBool true]; OTuple 0 [OInt 1; OInt 1]] = [OTuple 0 [OInt 1; OBool true]; OTuple 0 [OInt 1; OInt 1]].
+Proof. vm_compute. repeat split; reflexivity. Qed.
 
 (* {"a": 1, 5: 6} is accepted as TypedDict({"a": int}) *)
 Lemma typeddict_nonstr_key_refuted : ~ c03_full_statement.
